@@ -2,7 +2,13 @@ package engines
 
 import (
 	"fmt"
+	chainapp "github.com/EscanBE/evermint/v12/app"
+	"github.com/EscanBE/evermint/v12/constants"
+	cpcabi "github.com/EscanBE/evermint/v12/x/cpc/abi"
+	cpctypes "github.com/EscanBE/evermint/v12/x/cpc/types"
+	"github.com/stretchr/testify/require"
 	"math/big"
+	"sort"
 	"strings"
 	"testing"
 
@@ -166,7 +172,92 @@ func TestEngineCalltree(t *testing.T) {
 	}
 	// directed witness of finding F6, first on every run: STATICCALL -> runner 6 -> CALL -> erc20.transfer
 	f.runTree(p, 5, []*tnode{{kind: 1, target: 6, kids: []*tnode{{pc: true, kind: 0, tok: 50, method: "transfer", a: 2, amt: big.NewInt(7)}}}})
+	// ---- static probes: every store of the application, with vs. without the read-only subtree --------------
+	// EOA -> runner A -CALL-> [ STATICCALL runner B [ k STATICCALLs into custom precompiles, any method ] ] against the same
+	// transaction with an empty script for B, both on cache contexts of the same state: every KV store must come out
+	// byte-identical (the only edges into precompiles are STATICCALL edges, so finding F6 does not apply).  The first
+	// probes run before anything else ever called the staking / bech32 contracts.
+	app := f.c.s.ChainApp.IbcTestingApp().(*chainapp.Evermint)
+	keys := app.GetKVStoreKey()
+	var storeNames []string
+	for n := range keys {
+		storeNames = append(storeNames, n)
+	}
+	sort.Strings(storeNames)
+	ck := f.c.s.ChainApp.CpcKeeper()
+	if !ck.HasCustomPrecompiledContract(f.ctx, cpctypes.CpcStakingFixedAddress) {
+		_, err := ck.DeployStakingCustomPrecompiledContract(f.ctx, cpctypes.StakingCustomPrecompiledContractMeta{Symbol: constants.SymbolDenom, Decimals: 18})
+		require.NoError(t, err)
+	}
+	type probeCall struct {
+		name   string
+		target common.Address
+		input  []byte
+	}
+	probeCalls := func() []probeCall {
+		who := f.addrs[1+r.Intn(6)]
+		val := common.BytesToAddress(f.c.s.ValidatorAccounts.Number(1).GetValidatorAddress())
+		tok := f.tokens[50+r.Intn(2)]
+		bech := func(m string, args ...any) []byte {
+			mm := cpcabi.Bech32CpcInfo.ABI.Methods[m]
+			bz, err := mm.Inputs.Pack(args...)
+			require.NoError(t, err)
+			return append(append([]byte{}, mm.ID...), bz...)
+		}
+		return []probeCall{
+			{"erc20.name", tok, pack("name")}, {"erc20.symbol", tok, pack("symbol")}, {"erc20.decimals", tok, pack("decimals")},
+			{"erc20.totalSupply", tok, pack("totalSupply")}, {"erc20.balanceOf", tok, pack("balanceOf", who)}, {"erc20.allowance", tok, pack("allowance", who, f.addrs[5])},
+			{"erc20.transfer", tok, pack("transfer", who, big.NewInt(1))}, {"erc20.approve", tok, pack("approve", who, big.NewInt(5))},
+			{"staking.name", cpctypes.CpcStakingFixedAddress, packStk("name")}, {"staking.symbol", cpctypes.CpcStakingFixedAddress, packStk("symbol")},
+			{"staking.decimals", cpctypes.CpcStakingFixedAddress, packStk("decimals")},
+			{"staking.delegatedValidators", cpctypes.CpcStakingFixedAddress, packStk("delegatedValidators", who)},
+			{"staking.delegationOf", cpctypes.CpcStakingFixedAddress, packStk("delegationOf", who, val)},
+			{"staking.totalDelegationOf", cpctypes.CpcStakingFixedAddress, packStk("totalDelegationOf", who)},
+			{"staking.rewardOf", cpctypes.CpcStakingFixedAddress, packStk("rewardOf", who, val)}, {"staking.rewardsOf", cpctypes.CpcStakingFixedAddress, packStk("rewardsOf", who)},
+			{"staking.balanceOf", cpctypes.CpcStakingFixedAddress, packStk("balanceOf", who)},
+			{"staking.delegate", cpctypes.CpcStakingFixedAddress, packStk("delegate", val, big.NewInt(10))},
+			{"staking.withdrawRewards", cpctypes.CpcStakingFixedAddress, packStk("withdrawRewards")},
+			{"bech32.accountPrefix", cpctypes.CpcBech32FixedAddress, bech("bech32AccountAddrPrefix")},
+			{"bech32.encode", cpctypes.CpcBech32FixedAddress, bech("bech32EncodeAddress", "evm", who)},
+			{"bech32.garbage", cpctypes.CpcBech32FixedAddress, []byte{1, 2, 3, 4, 5}},
+		}
+	}
+	staticProbe := func() {
+		all := probeCalls()
+		var script []byte
+		var names []string
+		for i, k := 0, 1+r.Intn(4); i < k; i++ {
+			pc := all[r.Intn(len(all))]
+			names = append(names, pc.name)
+			script = append(script, record(1, pc.target, pc.input)...)
+		}
+		script = append(script, 2)
+		run := func(inner []byte) map[string]string {
+			cc, _ := f.ctx.CacheContext()
+			saved := f.ctx
+			f.ctx = cc
+			body := append(record(1, f.addrs[6], inner), 2)
+			_, err := f.call(f.addrs[1], f.addrs[5], body)
+			f.ctx = saved
+			require.NoError(t, err)
+			return dumpStores(cc, keys, storeNames)
+		}
+		with, without := run(script), run([]byte{2})
+		p.Count("static-probe")
+		for _, nm := range names {
+			p.Count("static-probe:" + nm)
+		}
+		if d := diffDumps(with, without); len(d) > 0 {
+			p.Oracle("C12-write-under-static", "read-only subtree [%s] (STATICCALL edges only) changed %d store entries, first: %s", strings.Join(names, ","), len(d), strings.Join(firstK(d, 3), ";"))
+		}
+	}
+	for i := 0; i < 12; i++ {
+		staticProbe()
+	}
 	for i := 0; i < n; i++ {
+		if i%10 == 9 {
+			staticProbe()
+		}
 		root := 5 + r.Intn(2)
 		if r.Chance(1, 4) { // the whole tree under one STATICCALL frame: the oracle can observe "nothing changed"
 			tgt := 5 + r.Intn(2)
